@@ -224,19 +224,29 @@ def main():
             return item, tag, res
         results = list(ctx.pool.map(do, plan))
         # ---- translation validation (first main config of every harness)
-        nval = int(os.environ.get('VERIF_VALRUNS', '12' if tier == 'quick' else '40'))
-        done_val = set()
-        for (h, cfg, role), tag, res in results:
-            if role != 'main' or h['name'] in done_val: continue
-            done_val.add(h['name'])
+        nval = int(os.environ.get('VERIF_VALRUNS', spec.get('val_runs', {}).get(tier, '12' if tier == 'quick' else '40')))
+        done_val = set(); vjobs = []
+        def do_val(h, cfg, tag):
             vcfg = dict(cfg, VS_OBSERVE=None)
             bc, err = build_query(ctx, h, vcfg, tag + '_val'); native, err2 = build_native(ctx, h, vcfg, tag + '_val')
             if bc is None or native is None:
-                inconclusive.append({'harness': h['name'], 'config': cfgname(cfg), 'why': 'validation build failed: %s %s' % (err, err2)}); continue
+                return h, vcfg, None, 'validation build failed: %s %s' % (err, err2)
             mism, samples = validate_translation(ctx, h, bc, native, nval, seed)
+            return h, vcfg, (mism, samples), None
+        outer = cf.ThreadPoolExecutor(max_workers=8)
+        for (h, cfg, role), tag, res in results:
+            if role != 'main' or h['name'] in done_val: continue
+            done_val.add(h['name'])
+            vjobs.append(outer.submit(do_val, h, cfg, tag))
+        for j in vjobs:
+            h, vcfg, r, err = j.result()
+            if r is None:
+                inconclusive.append({'harness': h['name'], 'config': cfgname(vcfg), 'why': err}); continue
+            mism, samples = r
             val_runs += nval; val_samples += samples
             if mism:
                 inconclusive.append({'harness': h['name'], 'config': cfgname(vcfg), 'why': 'ENCODING MISMATCH engine(concrete) vs native twin', 'detail': mism[:2]})
+        outer.shutdown(wait=False)
         # ---- interpret
         for (h, cfg, role), tag, res in results:
             j = res['json'] or {}
